@@ -1564,7 +1564,87 @@ pub static HIST: crate::props::histprops::HistProp = crate::props::histprops::Hi
     extra: None,
 };
 
+// ---------------------------------------------------------------------------------------------
+// the lowest descriptor: an adapter over fd 0 (a socket that took the place of stdin) behaves like one over any other
+// descriptor - non-blocking while adapted, former mode restored and the fd out of the poller afterwards (enumerated:
+// drop | into_inner x blocking | non-blocking before). Runs first, while the check process is single-threaded.
+
+#[derive(Serialize, Deserialize, Debug, Clone, Hash, PartialEq, Eq)]
+pub struct LowFdCase {
+    pub into_inner: bool,
+    pub was_nonblocking: bool,
+}
+
+pub fn run_low_fd(c: &LowFdCase) -> CaseOutcome {
+    use std::os::unix::io::AsRawFd;
+    let mut info = CaseInfo { fingerprint: fingerprint(c), nontrivial: !c.was_nonblocking, ..CaseInfo::default() };
+    info.classes.push("adapter_over_fd_0");
+    let saved = kernel::dup(0);
+    let (a, b) = kernel::socketpair();
+    unsafe { libc::dup2(a, 0) };
+    kernel::close(a);
+    kernel::set_nonblocking(0, c.was_nonblocking);
+    let v = |d: String| Some(Violation::new("C17.flags", format!("adapter over file descriptor 0 ({}, {} before): {d}", if c.into_inner { "into_inner" } else { "drop" }, if c.was_nonblocking { "non-blocking" } else { "blocking" })).with_sig("C17.flags/fd0"));
+    let viol = (|| {
+        let el: EventLoop<'static, ()> = EventLoop::try_new().expect("event loop");
+        let epfd = el.as_raw_fd();
+        let io = match el.handle().adapt_io(kernel::BorrowedRaw(0)) {
+            Ok(io) => io,
+            Err(e) => return v(format!("adapt_io failed: {e}")),
+        };
+        if !kernel::is_nonblocking(0) {
+            return v("O_NONBLOCK is clear while the adapter lives".into());
+        }
+        if c.into_inner {
+            let _ = io.into_inner();
+        } else {
+            drop(io);
+        }
+        if kernel::is_nonblocking(0) != c.was_nonblocking {
+            return v(format!("after the adapter is gone O_NONBLOCK is {}, it was {} before adapt_io", kernel::is_nonblocking(0), c.was_nonblocking));
+        }
+        if kernel::epoll_table(epfd).iter().any(|e| e.tfd == 0) {
+            return v("after the adapter is gone the descriptor is still registered with the poller".into());
+        }
+        match el.handle().adapt_io(kernel::BorrowedRaw(0)) {
+            Ok(io) => drop(io),
+            Err(e) => return v(format!("adapting the descriptor again failed: {e}")),
+        }
+        None
+    })();
+    unsafe {
+        if saved >= 0 {
+            libc::dup2(saved, 0);
+            libc::close(saved);
+        } else {
+            libc::close(0);
+        }
+    }
+    kernel::close(b);
+    (info, viol)
+}
+
+fn low_fd(ctx: &CheckCtx) -> Option<Found> {
+    if let Some(f) = ctx.run_replays::<LowFdCase, _>("low_fd", run_low_fd) {
+        return Some(f);
+    }
+    for into_inner in [false, true] {
+        for was_nonblocking in [false, true] {
+            let c = LowFdCase { into_inner, was_nonblocking };
+            let (info, v) = run_low_fd(&c);
+            ctx.col.record(&info, || serde_json::to_value(&c).unwrap());
+            if let Some(v) = v {
+                return Some(Found { sub: "low_fd".into(), violation: v, case: serde_json::to_value(&c).unwrap(), replay_path: None });
+            }
+        }
+    }
+    None
+}
+
 pub fn check(ctx: &CheckCtx) -> Option<Found> {
+    if let Some(f) = low_fd(ctx) {
+        return Some(f);
+    }
     if let Some(f) = ctx.run_replays::<crate::hist::ops::HistCase, _>("hist", |c| crate::props::histprops::run_case_for(&HIST, c)) {
         return Some(f);
     }
@@ -1683,6 +1763,10 @@ pub fn fuzz_subs(_ctx: &CheckCtx) -> Vec<crate::fuzz::FuzzSub> {
 pub fn replay(_ctx: &CheckCtx, sub: &str, case: serde_json::Value) -> Result<Option<Violation>, String> {
     if sub == "hist" {
         return crate::props::histprops::hist_replay(&HIST, case);
+    }
+    if sub == "low_fd" {
+        let c: LowFdCase = serde_json::from_value(case).map_err(|e| e.to_string())?;
+        return Ok(run_low_fd(&c).1);
     }
     let c: Case = serde_json::from_value(case).map_err(|e| e.to_string())?;
     Ok(run_case(&c).1)
